@@ -71,7 +71,8 @@ check("C20", "DESIGN.md 5/C20",
       "executed by the real code: term lists compared, derivative terms materialised and compared with the model's exact columns and "
       "with finite differences of the materialised original term. Further alphabets: a column named like a transform, a python factor and a quoted name as "
       "factors; structured formulas of up to 3 parts in four spellings (each part differentiated with respect to the same tuple); OutputLaw states the property "
-      "on the output alone; two design errors (zero unless the variable is a required variable; only the first part differentiated) are refuted by TLC.",
+      "on the output alone; the formula's ordering mode (degree / none / sort) is a dimension of the family; three design errors (zero unless the variable is a required "
+      "variable; only the first part differentiated; the derivative ordered anew by the formula's mode) are refuted by TLC.",
       "Trusted: materialisation of a single numeric term; use_sympy=True is out of scope (sympy is not installed).")
 
 check("C19", "DESIGN.md 5/C19",
@@ -94,7 +95,7 @@ check("C02", "DESIGN.md 5/C02",
       "TLC proves on every case in the bound that without rank reduction each term is the complete Kronecker product of the full "
       "encodings, that the intercept is a column of ones and that the literal scale is carried exactly once; the real model_matrix is "
       "compared name for name and cell for cell with the matrix the specification computes, for pandas, numpy and sparse output; the same numbers held "
-      "in the narrowest integer dtype must give the same matrix on each output type. MC_MatLevels.tla: levels named by C(A, levels=[...]) or recorded in an "
+      "in the narrowest integer dtype must give the same matrix on each output type (also times 2**31 as float64 against int64: products leave the int64 range). MC_MatLevels.tla: levels named by C(A, levels=[...]) or recorded in an "
       "attached spec x storage of the column (objects, categorical dtype declaring the levels in 4 orders) x re-application in another storage; laws "
       "Indicators, StorageIrrelevant, ReapplyStable; the design error of trusting a dtype's codes when its category set equals the level list is refuted.",
       "Trusted: gamma (abstract frame -> DataFrame) and alpha (asarray/toarray). Verdict is equality with the model's matrix; under rank "
@@ -130,7 +131,7 @@ check("C06", "DESIGN.md 5/C06",
       "in TLC over every null pattern; exhaustive replay through all entry points, index kinds and outputs",
       "TLC proves for every null pattern x formula x policy x caller set in the bound that the drop set only grows and ends as exactly "
       "the caller's rows plus the null rows, that kept rows are the complement in order, and that raise fails iff an evaluated factor has a "
-      "null; every case is executed through sugar / Formula / ModelSpec(s) with and without call-time overrides / materializer object / the narwhals materializer as an option override, on default, "
+      "null; every case is executed through sugar / Formula / ModelSpec(s) with and without call-time overrides / materializer object (new, and one that has already answered another request) / the narwhals materializer as an option override, on default, "
       "string, unsorted and non-unique indexes, for pandas / numpy / sparse, comparing cells, index label sequence, the caller's set and "
       "the exception.",
       "Nulls of numeric columns are also realised as pd.NA of nullable extension arrays (Int64, Float64). "
@@ -200,7 +201,9 @@ check("C09", "DESIGN.md 5/C09",
       "through spec.get_model_matrix and model_matrix(spec, ...), with the pickled spec too, comparing exception class, warning category, "
       "names and cells with the model, for recorded specs of pandas, numpy and sparse output. MC_ReuseSession.tla: the replay is carried out by one "
       "materializer object that has answered earlier calls (fresh formulas or the spec); law SessionFree (the outcome equals that of a fresh object); the "
-      "design error of keeping evaluated factors between calls is refuted by TLC.",
+      "design error of keeping evaluated factors between calls is refuted by TLC. Restrictions of the recorded spec (ModelSpec.subset) to every "
+      "order-preserving choice of its terms: TLC proves SubsetMatchesParent / SubsetIdentity, refutes the re-scoped and the re-levelled restriction, and "
+      "every restriction is replayed on the follow-up frame.",
       "Trusted: gamma/alpha. Numeric data under C() counts as unseen levels, not as a kind change (DESIGN section 11), and is not enumerated.")
 
 check("C11", "DESIGN.md 5/C11",
@@ -240,7 +243,7 @@ check("C17", "DESIGN.md 5/C17",
       "'.' law for every column order; every case is executed: Formula.required_variables, success / FactorEvaluationError, cells (the "
       "layers hold different numbers so the source is observable), variables_by_source, ModelSpec.required_variables, the restricted "
       "build and the build with each required column removed.",
-      "A second quoted name whose placeholder collides with the first one's occurs in the same python factor (16 presence patterns x 6 spelling pairs); the right-hand side "
+      "Two factors pass names by keyword (np.clip(x, a_min=z, a_max=None); nested in I() with a quoted keyword value). A second quoted name whose placeholder collides with the first one's occurs in the same python factor (16 presence patterns x 6 spelling pairs); the right-hand side "
       "around '.' is written in 7 ways (signs, 0, 1 before and after the wildcard, with and without blanks). The name that needs quoting is replayed under six spellings (blank, keyword, leading digit, python constant, dotted, dotted with a "
       "transform name in front). Known findings D19 (a data column named like a transform is omitted by the pre-materialization estimate) and "
       "D37 (attribute access reported as a dotted path) are reported as KNOWN-FINDING. Trusted: the concrete values placed in each layer.")
